@@ -36,7 +36,7 @@ type msmSpec struct {
 	SatMask  uint64 `json:"sat_mask"`
 	SigMask  uint32 `json:"sig_mask"`
 	CellBits string `json:"cell_mask"` // "1011..." satellite-major
-	Values   string `json:"values"`    // zero|max|invalid|minus1|alt|counter
+	Values   string `json:"values"`    // zero|max|invalid|minus1|alt|counter|lastzero|firstzero|tailzero
 	Multiple bool   `json:"multiple"`
 	Pad      int    `json:"pad"`
 	Scalars  string `json:"scalars"` // zero|max|alt
@@ -91,6 +91,20 @@ func (s msmSpec) build() (*ref.MSMHeader, []ref.MSMSat, []ref.MSMSig) {
 			sigs[i] = ref.MSMSig{RangeDelta: -1, PhaseDelta: -1, Lock: 1, Half: true, CNR: 1, RateDelta: -1}
 		case "alt":
 			sigs[i] = ref.MSMSig{RangeDelta: -0x2AAB, PhaseDelta: 0x155555, Lock: 0x5, Half: i%2 == 0, CNR: 0x2A, RateDelta: 0x2AAA}
+		case "lastzero", "firstzero", "tailzero":
+			// counter values, but the last / first cell all zero, or the fields that
+			// are stored last (CNR and rate delta) zero in every cell
+			sigs[i] = ref.MSMSig{RangeDelta: int64(i*101+1) - 3000, PhaseDelta: int64(i*1009+7) - 50000, Lock: uint(i+1) % (1 << uint(lk)),
+				Half: i%3 == 0, CNR: uint(i*5+2) % (1 << uint(cn)), RateDelta: int64(i*53+3) - 2000}
+			if (s.Values == "lastzero" && i == len(sigs)-1) || (s.Values == "firstzero" && i == 0) {
+				sigs[i] = ref.MSMSig{}
+			}
+			if s.Values == "tailzero" {
+				sigs[i].CNR, sigs[i].RateDelta, sigs[i].Half = 0, 0, false
+				if i >= len(sigs)-2 {
+					sigs[i].Lock = 0
+				}
+			}
 		default:
 			sigs[i] = ref.MSMSig{RangeDelta: int64(i*101+1) - 3000, PhaseDelta: int64(i*1009+7) - 50000, Lock: uint(i+1) % (1 << uint(lk)),
 				Half: i%3 == 0, CNR: uint(i*5+2) % (1 << uint(cn)), RateDelta: int64(i*53+3) - 2000}
@@ -292,7 +306,7 @@ func maskWithBits(total int, positions []int) uint64 {
 // C04: MSM4/MSM7 round trip over a complete product of shapes, masks, values, flags and paddings.
 func C04(r *ev.Run) {
 	thorough := r.Tier == "thorough"
-	r.Rule = "complete product of: 14 MSM4/MSM7 types x (satellite,signal) mask shapes {0x0,1x1,1x2,2x2,3x2,1x32,2x32,64x1,32x2,8x8 and sparse/last-position ids} x cell masks {all 2^n for n<=6 mask bits; otherwise full, empty, first only, last only, checkerboard, one per row} x field values {all zero, all maximum, all 'invalid' minimum, -1, alternating bits, distinct counter per cell} x header scalars {zero, max, alternating} x multiple-message flag {0,1} (no-cell messages only with 0) x trailing zero padding bytes {0..12,16,31,32,33,64, maximum that fits} (quick: 0..10 and a reduced shape list); every exported header, satellite and signal field compared with the encoder input, including the satellite/signal id each cell is attached to. Non-trivial = has at least one signal cell; distinct = distinct frames"
+	r.Rule = "complete product of: 14 MSM4/MSM7 types x (satellite,signal) mask shapes {0x0,1x1,1x2,2x2,3x2,1x32,2x32,64x1,32x2,8x8, sparse/last-position ids, and every n x m with n<=4, m<=8, n*m<=16 so that the signal data ends at every bit alignment} x cell masks {all 2^n for n<=6 mask bits; otherwise full, empty, first only, last only, checkerboard, one per row} x field values {all zero, all maximum, all 'invalid' minimum, -1, alternating bits, distinct counter per cell, counter with an all-zero last cell, with an all-zero first cell, with the last-stored fields zero} x header scalars {zero, max, alternating} x multiple-message flag {0,1} (no-cell messages only with 0) x trailing zero padding bytes {0..12,16,31,32,33,64, maximum that fits} (quick: 0..10 and a reduced shape list); every exported header, satellite and signal field compared with the encoder input, including the satellite/signal id each cell is attached to. Non-trivial = has at least one signal cell; distinct = distinct frames"
 	r.Assumptions = []string{"the reference encoder in /verif/ref/msm.go (field-major arrays, two's complement, zero padding) defines 'well-formed'", "decoders are called directly (type_msm4/type_msm7 message.GetMessage) and, for a subset, through handler.GetMessage+Analyse"}
 	type shape struct {
 		name string
@@ -322,8 +336,22 @@ func C04(r *ev.Run) {
 	if !thorough {
 		shapes = []shape{shapes[0], shapes[1], shapes[3], shapes[4], shapes[5], shapes[6], shapes[7], shapes[9]}
 	}
+	// every bit alignment of the end of the signal data (the header is 169 bits,
+	// satellite cells 18/36 bits, signal cells 48/80 bits): 1..4 satellites x
+	// 1..8 signal types reach all residues mod 8 for both message families
+	for ns := 1; ns <= 4; ns++ {
+		for ng := 1; ng <= 8; ng++ {
+			if ns*ng > 16 || (ns == 1 && ng <= 2) || (ns == 2 && ng == 2) {
+				continue
+			}
+			if !thorough && ns > 2 && ng > 4 {
+				continue
+			}
+			shapes = append(shapes, shape{fmt.Sprintf("%dx%d", ns, ng), ^uint64(0) << uint(64-ns), (^uint32(0) << uint(32-ng)) >> 1})
+		}
+	}
 	types := []int{1074, 1084, 1094, 1104, 1114, 1124, 1134, 1077, 1087, 1097, 1107, 1117, 1127, 1137}
-	values := []string{"zero", "max", "invalid", "minus1", "alt", "counter"}
+	values := []string{"zero", "max", "invalid", "minus1", "alt", "counter", "lastzero", "firstzero", "tailzero"}
 	pads := []int{0, 1, 2, 3, 4, 5, 6, 7, 8, 9, 10}
 	if thorough {
 		pads = append(pads, 11, 12, 16, 31, 32, 33, 64, -1) // -1 = maximum that fits
